@@ -143,6 +143,8 @@ fp("dask/array/core.py", "broadcast_shapes", "common_blockdim", "unify_chunks", 
 fp("dask/array/blockwise.py", "blockwise")
 fp("dask/array/ufunc.py", "ufunc.__call__", "wrap_elemwise")
 fp("dask/array/gufunc.py", "apply_gufunc", "_parse_gufunc_signature", "_validate_normalize_axes")
+fp("dask/array/optimization.py", "fuse_slice", "normalize_slice", "_optimize_slices")
+fp("dask/array/rechunk.py", "rechunk")
 
 
 def ufunc_table(repo):
